@@ -45,6 +45,34 @@ import (
 	"go.opentelemetry.io/collector/processor/processortest"
 )
 
+// ---- contexts of lifecycle calls ------------------------------------------------------------------------
+// A context given to Start/Shutdown is only valid for the call.  Every Start/Shutdown of the harness
+// gets, in rotation: context.Background(); a cancellable context cancelled right after the call
+// returned; a context whose deadline passes right after the call; a context that is already
+// cancelled.  The limiter must not tie the shared checker's life (or the effect of Shutdown) to it.
+var vCtxCounter atomic.Int64
+
+func vWithCtx(f func(context.Context) error) error {
+	switch vCtxCounter.Add(1) % 4 {
+	case 1:
+		ctx, cancel := context.WithCancel(context.Background())
+		e := f(ctx)
+		cancel()
+		return e
+	case 2:
+		ctx, cancel := context.WithTimeout(context.Background(), 200*time.Microsecond)
+		e := f(ctx)
+		<-ctx.Done()
+		cancel()
+		return e
+	case 3:
+		ctx, cancel := context.WithCancel(context.Background())
+		cancel()
+		return f(ctx)
+	}
+	return f(context.Background())
+}
+
 // ---- unexported fields of memorylimiter.MemoryLimiter ---------------------------------------------
 func vField(ml *memorylimiter.MemoryLimiter, name string) reflect.Value {
 	f := reflect.ValueOf(ml).Elem().FieldByName(name)
@@ -242,6 +270,11 @@ func (p *vProcs) stopTicker() {
 // consume sends payload (signal, id) and returns the error, the marshalled original and what the sinks got.
 func (p *vProcs) consume(signal int, id int64, n int) (error, []byte, []vRecv) {
 	ctx := context.Background()
+	if id%5 == 0 { // the gate does not depend on the caller's context either
+		c, cancel := context.WithCancel(ctx)
+		cancel()
+		ctx = c
+	}
 	p.sinks.got = nil
 	var err error
 	var orig []byte
@@ -475,14 +508,14 @@ func vProcLifeCases(out *vOut, r *vRand, n int) {
 				if users == 0 && everStopped {
 					restarts++
 				}
-				e = p.comps[which].Start(context.Background(), host)
+				e = vWithCtx(func(cx context.Context) error { return p.comps[which].Start(cx, host) })
 				started[which]++
 				users++
 				if e != nil {
 					out.Oracle("start-returns-error", "proc", e.Error())
 				}
 			} else {
-				e = p.comps[which].Shutdown(context.Background())
+				e = vWithCtx(func(cx context.Context) error { return p.comps[which].Shutdown(cx) })
 				if (e != nil) != (users == 0) || (e != nil && !errors.Is(e, memorylimiter.ErrShutdownNotStarted)) {
 					out.Oracle("shutdown-error-iff-not-started", "proc", fmt.Sprintf("users=%d err=%v", users, e))
 				}
@@ -520,7 +553,7 @@ func vProcLifeCases(out *vOut, r *vRand, n int) {
 				out.Oracle("refcount", term, fmt.Sprintf("users=%d refCounter=%d (processors must share one limiter)", users, rc))
 			}
 		}
-		for k := 0; k < 64 && p.ml.Shutdown(context.Background()) == nil; k++ {
+		for k := 0; k < 64 && vWithCtx(func(cx context.Context) error { return p.ml.Shutdown(cx) }) == nil; k++ {
 		}
 		p.stopTicker()
 		out.Case(users > 0 || everStopped, fmt.Sprintf("(CLife %s %s)", vList(ops), vList(obs)))
@@ -632,7 +665,7 @@ func vGateConcurrent(out *vOut, r *vRand) {
 		limit, spike := vLimits(p.ml)
 		soft := limit - spike
 		for _, c := range p.comps {
-			if err := c.Start(context.Background(), host); err != nil {
+			if err := vWithCtx(func(cx context.Context) error { return c.Start(cx, host) }); err != nil {
 				out.Oracle("start-returns-error", "concurrent", err.Error())
 			}
 		}
@@ -731,7 +764,7 @@ func vGateConcurrent(out *vOut, r *vRand) {
 		out.Stat("gateconc.refused", nref)
 		out.Stat("gateconc.accepted", nacc)
 		for _, c := range p.comps {
-			if err := c.Shutdown(context.Background()); err != nil {
+			if err := vWithCtx(func(cx context.Context) error { return c.Shutdown(cx) }); err != nil {
 				out.Oracle("shutdown-error-iff-not-started", "concurrent", err.Error())
 			}
 		}
